@@ -132,6 +132,43 @@ fn main() {
                             // the code-and-pointer block of a single-line span: the pointer starts under column col_begin and is
                             // max(1, col_end - col_begin) marks long (columns count characters, whatever their width in bytes)
                             let loc = e.core.sub_messages.first().map(|s| s.loc).filter(|l| *l != Location::Unknown).unwrap_or(e.core.loc);
+                            // a multi-line span: the first line is marked from col_begin to its end, the lines in between entirely, the last one
+                            // up to col_end - always counted in characters, so the marks never run past the text they underline
+                            if let Location::Range { ln_begin, col_begin, ln_end, col_end } = loc {
+                                if ln_begin < ln_end && ln_begin >= 1 && (ln_end as usize) <= lines.len() {
+                                    let plain = strip_ansi(&shown);
+                                    let out: Vec<&str> = plain.split('\n').collect();
+                                    for ln in ln_begin..=ln_end {
+                                        let src_line: String = lines[(ln - 1) as usize].iter().collect();
+                                        if src_line.contains('\t') {
+                                            continue;
+                                        }
+                                        let head = format!("{ln} ");
+                                        if let Some(k) = out.iter().position(|l| l.starts_with(&head) && l.ends_with(&src_line) && l.chars().count() > src_line.chars().count()) {
+                                            if k + 1 < out.len() {
+                                                let gutter = out[k].chars().count() - src_line.chars().count();
+                                                let ptr: Vec<char> = out[k + 1].chars().skip(gutter).collect();
+                                                let pad = ptr.iter().take_while(|c| **c == ' ').count();
+                                                let mark = ptr.get(pad).copied();
+                                                let run = ptr.iter().skip(pad).take_while(|c| Some(**c) == mark).count();
+                                                let width = src_line.chars().count();
+                                                let (want_pad, want_run) = if ln == ln_begin {
+                                                    (col_begin as usize, std::cmp::max(1, width.saturating_sub(col_begin as usize)))
+                                                } else if ln == ln_end {
+                                                    (0, col_end as usize)
+                                                } else {
+                                                    (0, std::cmp::max(1, width))
+                                                };
+                                                if want_run > 0 && (pad != want_pad || run != want_run) {
+                                                    vio.push(format!(
+                                                        "{what}: line {ln} of the span {ln_begin}:{col_begin}..{ln_end}:{col_end} is marked at column {pad} with {run} marks, it has {width} characters ({want_run} marks expected at column {want_pad})"
+                                                    ));
+                                                }
+                                            }
+                                        }
+                                    }
+                                }
+                            }
                             if let Location::Range { ln_begin, col_begin, ln_end, col_end } = loc {
                                 if ln_begin == ln_end && ln_begin >= 1 && (ln_begin as usize) <= lines.len() {
                                     let src_line: String = lines[(ln_begin - 1) as usize].iter().collect();
